@@ -3,7 +3,7 @@
 #include "riff.h"
 #include "util.h"
 
-// tree tokens:  C <type8> <payload>  |  L <type8> <id8> <n> child*n
+// tree tokens:  C <type8> <payload>  |  L <type8> <id8> <n> child*n  |  S <type8> <id8> <n> child*n (list added to itself)
 static RIFF build_tree(const std::vector<std::string>& t, size_t& i)
 {
 	const std::string& k = t.at(i++);
@@ -21,6 +21,18 @@ static RIFF build_tree(const std::vector<std::string>& t, size_t& i)
 		RIFF r(type, id);
 		for(unsigned long c = 0; c < n; c++)
 			r.add_chunk(build_tree(t, i));
+		return r;
+	}
+	else if(k == "S")
+	{
+		// a list that is then nested into itself: r.add_chunk(r)
+		uint32_t type = strtoul(t.at(i++).c_str(), 0, 16);
+		uint32_t id = strtoul(t.at(i++).c_str(), 0, 16);
+		unsigned long n = strtoul(t.at(i++).c_str(), 0, 10);
+		RIFF r(type, id);
+		for(unsigned long c = 0; c < n; c++)
+			r.add_chunk(build_tree(t, i));
+		r.add_chunk(r);
 		return r;
 	}
 	throw std::runtime_error("bad tree");
